@@ -249,8 +249,8 @@ func (x *Exec) rangeStart(i *ssa.Range, v Value) Value {
 
 // next models one step of a range-over-map iteration: the runtime picks any
 // key that is present now and has not been produced yet.
-func (l *loopCtx) next(i *ssa.Next, iter Value, st *State, pc *Term) Value {
-	x, b := l.x, l.x.b
+func (x *Exec) rangeNext(iter Value, st *State, pc *Term) Value {
+	b := x.b
 	it, ok := iter.(*IterV)
 	if !ok {
 		unsupported("next on %T", iter)
